@@ -10,7 +10,7 @@
    FunctionalExtensionality.functional_extensionality_dep) through Flocq. *)
 From Coq Require Import ZArith Reals List Bool.
 From Flocq Require Import Core.Core IEEE754.BinarySingleNaN.
-From GV Require Import Base.W64 Base.F64 Num.Model Num.Spec Num.IntProofs Num.MixedCmp Num.CmpOrder Num.ConvProofs Num.StrSpec Num.StrModel Num.StrProofs Num.ModProofs.
+From GV Require Import Base.W64 Base.F64 Num.Model Num.Spec Num.IntProofs Num.MixedCmp Num.CmpOrder Num.ConvProofs Num.StrSpec Num.StrModel Num.StrProofs Num.ModProofs Num.BitStr.
 Open Scope Z_scope.
 
 (* ---- integer arithmetic wraps around modulo 2^64 ---- *)
@@ -237,3 +237,16 @@ Print Assumptions C02_fmod_floor_value.
 Theorem C02_ParseInt_ok_sat : ParseInt_ok ParseInt_ref.
 Proof. exact ParseInt_ok_sat. Qed.
 Print Assumptions C02_ParseInt_ok_sat.
+
+(* ---- bitwise operators on string operands.  NOT a theorem of the code as it stands: golua never converts
+   a string operand (ToIntNoString) and raises "attempt to perform bitwise ... on a string value"; the manual
+   converts a numeric string to a number and then to an integer ('3' | 0 = 3).  Open finding
+   C02-bitwise-string-operands (golua's test runtime/lua/bitwise.lua pins the error, so not repaired).
+   bitstr_defect a b = some operand is a string that is a numeral. ---- *)
+Theorem C02_bitop_val_refuted : exists f a b, bitop_val_im f a b <> bitop_val_s f a b.
+Proof. exact bitop_val_refuted. Qed.
+Print Assumptions C02_bitop_val_refuted.
+
+Theorem C02_bitop_val_partial : forall f a b, bitstr_defect a b = false -> bitop_val_im f a b = bitop_val_s f a b.
+Proof. exact bitop_val_partial. Qed.
+Print Assumptions C02_bitop_val_partial.
